@@ -814,7 +814,7 @@ EXPORT errno_t _wcsnorm_reorder_s_chk(wchar_t *restrict dest, rsize_t dmax,
         if (cc_pos) {
             size_t i;
 
-            if (unlikely(dmax - cc_pos <= 0)) {
+            if (unlikely(dmax <= cc_pos)) {
                 if (seq_ext)
                     free(seq_ext);
                 handle_werror(orig_dest, orig_dmax,
@@ -1049,6 +1049,16 @@ EXPORT errno_t _wcsnorm_compose_s_chk(wchar_t *restrict dest, rsize_t dmax,
         /* output */
         _ENC_W16(dest, dmax, cpS); /* starter (composed or not) */
         if (unlikely(!dmax)) {
+            if (seq_ext)
+                free(seq_ext);
+            handle_werror(orig_dest, orig_dmax,
+                          "wcsnorm_compose_s: "
+                          "dmax too small",
+                          ESNOSPC);
+            return RCNEGATE(ESNOSPC);
+        }
+
+        if (unlikely(dmax <= cc_pos)) { /* the sequence and the null */
             if (seq_ext)
                 free(seq_ext);
             handle_werror(orig_dest, orig_dmax,
